@@ -1,12 +1,15 @@
 """C08 — saved user data restores exactly; a restart does not change any answer."""
 import json
+import os
 import shutil
+import time
 
 import checklib as cl
 from props import server_common as S
 
 INPUTS = ["くるまで", "しんかこか", "しんかこ", "やまだ", "たかい", "かか", "ためし", "こーひー", "ほん", "きやま", "おやま", "てすと"]
 CTXS = ["normal", "proper", "foreign", "numeral"]
+S_KANA = [chr(c) for c in range(0x3042, 0x3094)] + ["ー"]
 REGS = [("Guess", "かかない", "書かない"), ("Guess", "ためさない", "試さない"), ("Guess", "たべない", "食べない"), ("Guess", "たかい", "高い"),
         ("Guess", "しずかだ", "静かだ"), ("Guess", "べんきょうしない", "勉強しない"), ("Guess", "てすと", "試験"),
         ("CommonNoun", "こーひー", "珈琲"), ("CommonNoun", "てすと", "試験"), ("ProperNoun", "やまだ", "山駄"), ("CommonNoun", "abc", "ＡＢＣ"),
@@ -102,6 +105,46 @@ def run(run, replay=None):
                 files0 = files1
         finally:
             r.stop()
+    # ---- a large user dictionary (tens of KiB on disk): every registered word must come back after a restart --------------
+    bulk_n = 3000 if thorough else 1000
+    ud = os.path.join(wd, "bulk-user")
+    os.makedirs(ud, exist_ok=True)
+    srv = S.Server(bindir, dic, userdir=ud, save_secs=1)
+    try:
+        if not srv.wait_listening():
+            fails.append(("start", {"kind": "start"}, {"scenario": "bulk"}))
+        else:
+            kan = "亜唖娃阿哀愛挨姶逢葵茜穐悪握渥旭葦芦鯵梓圧斡扱宛姐虻飴絢綾鮎或粟袷安庵按暗案闇鞍杏"
+            sent = []
+            for i in range(bulk_n):
+                rd = "".join(rng.pick(S_KANA) for _ in range(1 + rng.below(7)))
+                w = "".join(rng.pick(kan) for _ in range(1 + rng.below(4))) + "".join("〇一二三四五六七八九"[int(ch)] for ch in str(i))
+                kind = rng.pick(["CommonNoun", "ProperNoun", "CommonNoun"])
+                if srv.rpc("RegisterWord", {"kind": kind, "reading": rd, "word": w})[0] == "ok":
+                    sent.append((rd, w))
+            stats["bulk_registrations"] = len(sent)
+            S.wait_until(lambda: (lambda d: d is not None and len(d["user_entries"]) >= len(sent))(srv.dump()), 20.0)
+            d0 = srv.dump()
+            time.sleep(2.5)          # two save ticks
+            size = os.path.getsize(os.path.join(ud, "user.dic")) if os.path.exists(os.path.join(ud, "user.dic")) else 0
+            stats["bulk_user_dic_bytes"] = size
+            srv.stop()
+            srv = S.Server(bindir, dic, userdir=ud, save_secs=1)
+            if not srv.wait_listening():
+                fails.append(("restart", {"kind": "restart"}, {"scenario": "bulk"}))
+            else:
+                d1 = srv.dump()
+                stats["restarts"] += 1
+                if d0 is None or d1 is None or d0["user_entries"] != d1["user_entries"]:
+                    a = (d0 or {}).get("user_entries", [])
+                    b = (d1 or {}).get("user_entries", [])
+                    lost = [e for e in a if e not in set(b)][:3]
+                    odd = [e for e in b if e not in set(a)][:3]
+                    fails.append(("bulk-not-restored", {"kind": "bulk-not-restored"},
+                                  {"registered": len(sent), "user_dic_bytes": size, "entries_before": len(a), "entries_after": len(b),
+                                   "lost": lost, "garbled": odd}))
+    finally:
+        srv.stop()
     dis = S.compare_with_model(run, runners)
     run.cov["model_disagreements"] = len(dis)
     seen = set()
@@ -120,6 +163,8 @@ def run(run, replay=None):
                     "rule": "history = 10–20 steps mixing registrations of all kinds (guessed verbs of several classes, adjectives, "
                             "adjectival verbs, nouns with ー / a–z readings) and confirmations in the four contexts with clock jumps; "
                             "then save + restart twice; 48 probe conversions (12 inputs x 4 contexts, ordered lists) and Verif.Dump "
-                            "are compared before/after each restart; user.dic must be byte-identical across the second save",
+                            "are compared before/after each restart; user.dic must be byte-identical across the second save; plus one bulk "
+                            "scenario: 1000 (thorough 3000) noun registrations with multi-byte readings (user.dic of tens of KiB), restart, "
+                            "entry list compared",
                     "samples": [runners[0].ops[1:6]] if runners else [], "histogram": stats, "oracle_failures": len(fails)})
     shutil.rmtree(wd, ignore_errors=True)
